@@ -55,6 +55,7 @@ func WorkerMain(t Target) {
 	maxS := fs.Float64("max-s", 0, "stop starting new cases after this many seconds")
 	shrinkBudget := fs.Int("shrink", 150, "")
 	evlog := fs.Bool("eventlog", false, "")
+	retries := fs.Int("retries", 1, "replay: executions to try before concluding")
 	_ = fs.Parse(os.Args[2:])
 	Tier = *tier
 	defer CleanupBase()
@@ -62,7 +63,7 @@ func WorkerMain(t Target) {
 	case "run":
 		os.Exit(runBatch(t, *prop, *seed, *from, *to, *out, *maxS, *shrinkBudget, *evlog))
 	case "replay":
-		os.Exit(replayFile(t, *file))
+		os.Exit(replayFile(t, *file, *retries))
 	case "genbatch":
 		o := GenBatch(t, *prop, *seed, *to, *file)
 		writeJSON(*out, o)
@@ -193,7 +194,7 @@ func shrinkViolation(t Target, check checkFn, v *Violation, budget int) {
 }
 
 // replayFile re-executes the worlds of a replay file in this (fresh) process.
-func replayFile(t Target, path string) int {
+func replayFile(t Target, path string, retries int) int {
 	b, err := os.ReadFile(path)
 	if err != nil {
 		fmt.Fprintln(os.Stderr, err)
@@ -204,7 +205,13 @@ func replayFile(t Target, path string) int {
 		fmt.Fprintln(os.Stderr, err)
 		return 2
 	}
-	sig, detail := replayViolation(t, &v)
+	sig, detail := "", ""
+	for a := 0; a < retries && sig == ""; a++ {
+		sig, detail = replayViolation(t, &v)
+		if sig != "" && a > 0 {
+			fmt.Printf("NONDETERMINISTIC: reproduced only on execution %d of the same world: the program's behaviour is not a function of the simulated inputs (uncontrolled goroutines or other real nondeterminism)\n", a+1)
+		}
+	}
 	if sig == "" {
 		fmt.Printf("NOT-REPRODUCED property=%s recorded-sig=%s\n", v.Property, v.Sig)
 		return 0
